@@ -7,6 +7,7 @@
 // saw must be explainable by some sequential ordering of the calls.
 #include "vf_main.hpp"
 
+#include <algorithm>
 #include <atomic>
 #include <cmath>
 #include <sstream>
@@ -270,6 +271,86 @@ void onlineStat(vf::Ctx & c)
   }
   for (auto & t : th) {t.join();}
   finish(c, rr, w.writerOps);
+}
+
+
+// 4b. OnlineVariance, sequential-consistency of (average, variance) reads. The writer feeds x_k = k^2, for which
+// the window mean and the window variance are both strictly increasing in k. A single-threaded run of the same
+// sequence records the exact value after every update; in the concurrent run every value a reader gets must be one of
+// them (bit for bit), and the state indexes of consecutive reads by one reader (average, variance, average) must not
+// decrease: a newer average followed by an older variance is not producible by any sequential ordering of the calls.
+void onlineVarianceSequence(vf::Ctx & c)
+{
+  int readers = static_cast<int>(c.s.i("readers", 1, 6));
+  int window = static_cast<int>(c.s.i("window", 2, 64));
+  size_t yk = c.s.pick("yield_class", {1, 1, 1});
+  int yieldEvery = yk == 0 ? 0 : (yk == 1 ? 64 : 7);
+  uint64_t seed = c.s.seed("value_seed");
+  c.label(readers == 1 ? "1-reader" : (readers <= 3 ? "2-3-readers" : "4-8-readers"));
+  c.commit();
+  const int N = 10000;    // x_k = k^2 <= 1e8 = the bound on |x|/precision; integers, so truncation is the identity
+  const int k0 = 2 * window + 2;
+  auto sample = [](int k) {return static_cast<double>(k) * static_cast<double>(k);};
+  std::vector<double> refAvg(N + 1, 0), refVar(N + 1, 0);
+  {
+    OnlineVariance ref(1.0, static_cast<size_t>(window));
+    for (int k = 1; k <= N; ++k) {ref.update(sample(k)); refAvg[k] = ref.getAverage(); refVar[k] = ref.getVariance();}
+  }
+  for (int k = k0 + 1; k <= N; ++k) {
+    c.harnessCheck(refAvg[k] > refAvg[k - 1] && refVar[k] > refVar[k - 1], "reference sequence is not strictly increasing");
+  }
+  OnlineVariance stat(1.0, static_cast<size_t>(window));
+  std::atomic<bool> done{false};
+  StartGate gate(readers + 1);
+  std::vector<ReaderResult> rr(readers);
+  std::vector<std::thread> th;
+  auto indexOf = [&](const std::vector<double> & ref, double v) -> int {
+      // -1: before the monotone region (not checked); -2: not a value of the sequential run
+      if (std::isnan(v) || v < ref[k0]) {return -1;}
+      auto it = std::lower_bound(ref.begin() + k0, ref.end(), v);
+      if (it == ref.end() || *it != v) {return -2;}
+      return static_cast<int>(it - ref.begin());
+    };
+  for (int r = 0; r < readers; ++r) {
+    th.emplace_back([&, r] {
+        vf::Rng rng(seed + 17 * (r + 1));
+        ReaderResult & res = rr[r];
+        int lastIdx = -1;
+        gate.arriveAndWait();
+        const uint64_t minOps = static_cast<uint64_t>(120000 / readers);
+        while (!done.load() || res.ops < minOps) {
+          double a1 = stat.getAverage();
+          double v = stat.getVariance();
+          double a2 = stat.getAverage();
+          res.ops += 3;
+          int i1 = indexOf(refAvg, a1), iv = indexOf(refVar, v), i2 = indexOf(refAvg, a2);
+          if (res.error.empty()) {
+            if (i1 == -2 || i2 == -2) {res.error = vf::fmt("OnlineVariance: reader %d got average %.17g which no sequential prefix of the updates produces", r, i1 == -2 ? a1 : a2);}
+            else if (iv == -2) {res.error = vf::fmt("OnlineVariance: reader %d got variance %.17g which no sequential prefix of the updates produces", r, v);}
+            else if (i1 >= 0 && iv >= 0 && iv < i1) {res.error = vf::fmt("OnlineVariance: reader %d read the average of state %d and afterwards the variance of the OLDER state %d", r, i1, iv);}
+            else if (iv >= 0 && i2 >= 0 && i2 < iv) {res.error = vf::fmt("OnlineVariance: reader %d read the variance of state %d and afterwards the average of the OLDER state %d", r, iv, i2);}
+            else if (i1 >= 0 && i1 < lastIdx) {res.error = vf::fmt("OnlineVariance: reader %d observed state %d after state %d", r, i1, lastIdx);}
+          }
+          if (i2 >= 0) {if (i2 != lastIdx) {res.distinct++;} lastIdx = i2;}
+          maybeYield(rng, yieldEvery);
+        }
+      });
+  }
+  {
+    vf::Rng rng(seed);
+    gate.arriveAndWait();
+    for (int k = 1; k <= N; ++k) {
+      stat.update(sample(k));
+      std::this_thread::yield();   // only 1e4 updates fit under the magnitude bound: stretch them over the readers' loops
+      maybeYield(rng, yieldEvery);
+    }
+    done.store(true);
+  }
+  for (auto & t : th) {t.join();}
+  uint64_t readerOps = 0;
+  for (const auto & r : rr) {readerOps += r.ops;}
+  if (readerOps + N < 100000) {c.label("fewer-than-1e5-operations(run-still-checked)");}
+  finish(c, rr, std::max<uint64_t>(N, 100000));
 }
 
 // 5. RateMonitoring: data thread updates, heartbeat thread calls timeout, readers read the rate
@@ -538,6 +619,7 @@ const std::vector<vf::Sub> kSubs = {
   {"shared_optional", sharedOptional, kRule},
   {"online_average", onlineStat<false>, kRule},
   {"online_variance", onlineStat<true>, kRule},
+  {"online_variance_sequence", onlineVarianceSequence, kRule},
   {"rate_monitoring", rateMonitoring, kRule},
   {"checkup_equal_to", checkupEqualTo, kRule},
   {"checkup_greater_than", checkupGreaterThan, kRule},
